@@ -60,7 +60,7 @@ def run_words(inp):
     for nm in NAMES:
         if not nm.isascii():
             continue
-        r = H.guard(lambda: R.Representation()._set_generator(nm, np.eye(2)))
+        r = H.guard(lambda: R.Representation().set_generator(nm, np.eye(2)))        # public API only
         val.append(H.exc_name(r) is None)
     o["valid"] = val
     return o
@@ -93,14 +93,16 @@ def judge_words(inp, obs, lr):
         if lr[3].get("err") != H.exc_name(fox):
             return {"expected": lr[3], "observed": fox, "tags": {"fn": "fox", "err": True}}
     else:
-        model = {"".join(k): int(c) for k, c in lr[3]["ok"]}
+        # zero coefficients are not part of the value of a Z[F]-element (an implementation may or may not store them)
+        model = {"".join(k): int(c) for k, c in lr[3]["ok"] if int(c) != 0}
+        fox = {k: v for k, v in fox.items() if v != 0}
         if model != fox:
             return {"expected": model, "observed": fox, "tags": {"fn": "fox"}}
     ft, mt = obs["foxt"], lr[-1]
     if "err" in mt or H.exc_name(ft):
         if mt.get("err") != H.exc_name(ft):
             return {"expected": mt, "observed": ft, "tags": {"fn": "fox", "tuple_words": True, "err": True}}
-    elif {tuple(k): int(c) for k, c in mt["ok"]} != {tuple(k): v for k, v in ft}:
+    elif {tuple(k): int(c) for k, c in mt["ok"] if int(c) != 0} != {tuple(k): v for k, v in ft if v != 0}:
         return {"expected": mt["ok"], "observed": ft, "tags": {"fn": "fox", "tuple_words": True}}
     for k in range(3):
         if ok(4 + k) != obs["parse"][k]:
@@ -186,12 +188,12 @@ def judge_rep(inp, obs, lr):
         return None
     qs = res["ok"]
     keys = [k for k, _ in qs[0]["ok"]]
-    if keys != obs["keys"]:
+    if sorted(keys) != sorted(obs["keys"]):          # (dict order is not part of the contract)
         return {"expected": keys, "observed": obs["keys"], "tags": {"what": "generator keys"}}
     for k, m in qs[0]["ok"]:
         if not H.mclose(obs["gens"][k], H.decm(m), 10.0 * float(np.max(np.abs(H.decm(m)))) ** 2):
             return {"expected": {k: m}, "observed": obs["gens"][k], "tags": {"what": "stored generator", "inverse": k not in [h["g"] for h in inp["spec"]["hist"]]}}
-    if qs[1]["ok"] != obs["asym"]:
+    if sorted(qs[1]["ok"]) != sorted(obs["asym"]):
         return {"expected": qs[1]["ok"], "observed": obs["asym"], "tags": {"what": "asym_gens"}}
     if obs.get("rels", []) != list(inp["spec"].get("relations", [])):
         return {"expected": {"relations": inp["spec"].get("relations", [])}, "observed": obs.get("rels"),
@@ -333,7 +335,7 @@ def judge_derived(inp, obs, lr):
         if r.get("err") != e:
             return {"expected": r, "observed": obs, "tags": dict(tags, error=True), "property_failure": bool(e) and "err" not in r}
         return None
-    if r["ok"]["gens"] != obs["keys"]:
+    if sorted(r["ok"]["gens"]) != sorted(obs["keys"]):
         return {"expected": r["ok"]["gens"], "observed": obs["keys"], "tags": dict(tags, what="keys")}
     if r["ok"]["rels"] != obs["rels"]:
         return {"expected": r["ok"]["rels"], "observed": obs["rels"], "tags": dict(tags, what="relations")}
@@ -383,14 +385,15 @@ def run_fox(inp):
            "diffat": H.guard(lambda: H.asl(rep.differential(inp["w"], generator=inp["g"]), ring)),
            "cocycle": H.guard(lambda: H.asl(rep.cocycle_matrix(), ring)),
            "coboundary": H.guard(lambda: H.asl(rep.coboundary_matrix(), ring)),
-           "bound": max(H.norm_bound(rep, r) for r in _rel_letters(inp)) * 20}
+           "bound": max(H.norm_bound(rep, r) for r in _rel_letters(inp)) * 20,
+           "asym": list(rep.asym_gens())}
     return out
 
 
 def lean_fox(inp, obs):
     spec = H.lean_spec(inp["spec"])
     spec.update(op="c05.run", q=[{"q": "diff", "w": inp["w"]}, {"q": "diffat", "w": inp["w"], "g": inp["g"]},
-                                 {"q": "cocycle"}, {"q": "coboundary"}])
+                                 {"q": "cocycle"}, {"q": "coboundary"}, {"q": "asym"}])
     return [spec]
 
 
@@ -402,10 +405,17 @@ def judge_fox(inp, obs, lr):
     if "err" in lr[0] or "exc" in obs:
         return {"expected": lr[0], "observed": obs, "tags": {"setup": True}}
     qs = lr[0]["ok"]
-    model = {}
-    for key, r, build in [("diff", qs[0], _hcat), ("diffat", qs[1], H.decm),
-                          ("cocycle", qs[2], lambda rows: np.concatenate([_hcat(b) for b in rows], axis=0)),
-                          ("coboundary", qs[3], lambda bl: np.concatenate([H.decm(b) for b in bl], axis=0))]:
+    # the blocks are matched by generator name: the order of asym_gens() is the implementation's
+    masym = qs[4]["ok"] if len(qs) > 4 and "ok" in qs[4] else obs.get("asym", [])
+    iasym = obs.get("asym", masym)
+    if sorted(masym) != sorted(iasym):
+        return {"expected": masym, "observed": iasym, "tags": {"fn": "asym_gens"}}
+    perm = [masym.index(g) for g in iasym]
+    reord = lambda blocks: [blocks[k] for k in perm] if len(blocks) == len(perm) else blocks
+    hcat = lambda blocks: _hcat(reord(blocks))
+    for key, r, build in [("diff", qs[0], hcat), ("diffat", qs[1], H.decm),
+                          ("cocycle", qs[2], lambda rows: np.concatenate([hcat(b) for b in rows], axis=0)),
+                          ("coboundary", qs[3], lambda bl: np.concatenate([H.decm(b) for b in reord(bl)], axis=0))]:
         e = H.exc_name(obs[key])
         if e or "err" in r:
             if r.get("err") != e:
